@@ -233,16 +233,20 @@ MANIFEST_TEXT = {'C02': {'text': 'Lean: C02_full_v2 : C02_Statement_v2 (Props/C0
          'note': 'no known finding left (B1 repaired by f9c374f); trusted: Lean kernel, Spec/MC6809 sext, correspondence, decode-and-check-target oracle',
          'technique': 'Lean 4 proof (telescoping size sums to address differences; fixOne case analysis) + differential correspondence + '
                       'decode-and-check-target oracle'},
- 'C13': {'text': 'Lean: assemble_not_diverged (assembly terminates for EVERY input: the PCR size loop settles a statement per pass or the progress guard '
-                 "forces one) and assemble_internal_iff_expand: assemble ends in an internal error IF AND ONLY IF INCLUDE expansion ran out of the model's "
-                 "fuel (more than 64 nested files, standing for Python's RecursionError); in every other case - for EVERY input text - the result is output or "
-                 'a diagnostic (C13_of_expand_ne_internal, C13_no_include). Proved stage by stage from invariants of the values the parser can produce (no '
-                 'hypothesis assumed), including the recursive evaluation of EQU expressions (resolveF_good: a definition cycle is a diagnostic, standing for '
-                 'the wrapped RecursionError), the symbol-table pass (evalSyms_good) and the ORG rule (orgOK only yields a diagnostic). C13_Statement_false '
-                 "only through the 65-nested-INCLUDE program. parseLine(s)_no_internal; C10's asmMain_failure gives the exit-status clause.",
+ 'C13': {'text': "Lean: C13_full : C13_Statement - for EVERY file system and EVERY sequence of input lines the model's assembly ends with output or with a "
+                 'diagnostic: assemble_not_diverged (the PCR size loop settles a statement per pass or the progress guard forces one; every other pass is a '
+                 'fold) and assemble_never_internal (no stage can end in an internal error: proved stage by stage from invariants of the values the parser can '
+                 'produce - parseLine(s)_no_internal, resolveF_good (the recursive evaluation of EQU expressions; a definition cycle is a diagnostic, standing '
+                 'for the wrapped RecursionError), translate, the PCR loop, orgOK, address assignment, fix_addresses / fit_operand_width, evalSyms_good, '
+                 'finalSymTab - and expand_includeFuel_ne_internal: the nesting budget of INCLUDE expansion, number of files + 1, is never exhausted because a '
+                 'file that is being included is rejected, pigeonhole chain_length_le). Former internal-error witnesses are *_fixed / *_diag theorems '
+                 "(C13_formerWitness_diag, the 70,002-line C13_witness_diag, C13_deepWitness_fixed: 65 nested files assemble). C10's asmMain_failure / "
+                 'C11_orgLate_no_file give the exit-status clause.',
          'design_ref': 'DESIGN.md section 5 C13, section 6 I',
-         'note': 'internal errors found on the way were repaired (fix: commits dfaa72e, 53e40d1, 3dc4a50, 077e4c2, 316e504, 8c9a9ea, 0addc5e, dfad397, '
-                 '145359a); the streams run under a 3 s watchdog',
+         'note': "no exclusion left in the model; model limit named: the interpreter's recursion limit (about 980 nested INCLUDE files, about 480 chained EQU "
+                 'definitions) is reported by the code as a diagnostic (fixes 60b7841, 0f280be) and is not modelled; internal errors found on the way were '
+                 'repaired (dfaa72e, 53e40d1, 3dc4a50, 077e4c2, 316e504, 8c9a9ea, 0addc5e, dfad397, 145359a, 8b7d004, 60b7841); the streams run under a 3 s '
+                 'watchdog',
          'technique': 'Lean 4 proof (termination measure for the size fixpoint; outcome case analysis of the parser) + differential correspondence with '
                       'watchdog + CLI exit-status oracle'},
  'C17': {'text': 'Translation validation of a stateless model: the Lean model assemble is a pure function (C17_history_free, C17_repeatable are immediate), so '
@@ -269,13 +273,14 @@ MANIFEST_TEXT = {'C02': {'text': 'Lean: C02_full_v2 : C02_Statement_v2 (Props/C0
          'note': 'R2 proved up to operand resolution only (resolveF_rename); finding S1 repaired by 4e31349 (C18_R2_*_fixed)',
          'technique': 'Lean 4 proof (scanner canonical form; prefix stability through all passes) + metamorphic oracle on the implementation + differential '
                       'correspondence'},
- 'C19': {'text': 'Lean: include_textual (for every file system, prefix, suffix and include line: assembling with INCLUDE f equals assembling with the lines of '
-                 'f spliced in, whenever the including side does not end in an internal error), include_textual_star (any nesting, by induction), '
-                 'include_textual_cases (unconditional trichotomy), include_missing_diag / include_cycle_diag (a missing file and an inclusion cycle are '
-                 'diagnostics), C19_partial; C19_not_full only through nesting deeper than 64 files.',
+ 'C19': {'text': 'Lean: C19_full : C19_Statement - include_textual_full (for every file system, prefix, suffix and INCLUDE line: assembling with INCLUDE f '
+                 'EQUALS assembling with the lines of f spliced in - image, listing, symbol table, and also the diagnostic outcome; unconditional since the '
+                 'nesting budget is the number of files + 1: expand_fuel_irrelevant), include_textual_star_full (any nesting, by induction), '
+                 'include_missing_full / include_cycle_full (a missing file and an inclusion cycle are diagnostics, at any depth). The former depth findings '
+                 'are *_fixed theorems on the same witnesses.',
          'design_ref': 'DESIGN.md section 5 C19',
-         'note': "missing files and cycles are diagnostics since fix 8c9a9ea (include_missing_diag, include_cycle_diag); 'internal' remains only through "
-                 "INCLUDE nesting deeper than the model's fuel (64), which stands for Python's RecursionError",
+         'note': "no exclusion left in the model; model limit named: nesting deeper than the interpreter's recursion limit (about 980 files) is a diagnostic "
+                 'in the code (fix 60b7841) and accepted by the model',
          'technique': 'Lean 4 proof (expansion distributes over concatenation, fuel monotonicity) + differential correspondence + '
                       'implementation-vs-implementation splice oracle'},
  'C09': {'text': 'Lean: sniff_written_disk (every image the tool writes as a disk is recognised as a disk, whatever its content), sniff_written_cassette (a '
